@@ -291,6 +291,50 @@ func generatedHostile() []seedFile {
 		}, ""))
 	}
 
+	// reference grammar: stray integers and R keywords around references, in
+	// /Kids, in a /Contents array and inside an object stream (a malformed-
+	// file error at most on the good tree)
+	add("hostile-refgrammar-kids.pdf", classicFile(map[int]string{
+		1: "<< /Type /Catalog /Pages 2 0 R /A 6 0 R /B 7 0 R /C 8 0 R >>",
+		2: "<< /Type /Pages /Count 2 /Kids [ 3 0 R 9 0 R ] >>",
+		3: pageObj, 4: contentObj, 5: fontObj,
+		6: "[1 2 3 R 4 R]",
+		7: "[1 2 3 4 R R]",
+		8: "[ R 1 2 R R [ 5 R ] 3 0 R 0 R ]",
+		9: "<< /Type /Pages /Parent 2 0 R /Count 1 /Kids [7 3 0 R 4 R] >>",
+	}, ""))
+	add("hostile-refgrammar-contents.pdf", classicFile(map[int]string{
+		1: "<< /Type /Catalog /Pages 2 0 R >>",
+		2: "<< /Type /Pages /Count 2 /Kids [ 3 0 R 6 0 R ] >>",
+		3: "<< /Type /Page /Parent 2 0 R /MediaBox [0 0 200 200] /Contents [ 9 4 0 R 4 R ] /Resources << /Font << /F1 5 0 R >> >> >>",
+		4: contentObj, 5: fontObj,
+		6: "<< /Type /Page /Parent 2 0 R /MediaBox [0 0 200 200] /Contents [ 4 0 R 1 2 4 0 R R ] /Resources << /Font << /F1 5 0 R >> >> >>",
+	}, ""))
+	refMembers := "10 0 11 14 12 29 "
+	refBody := refMembers + "[1 2 3 R 4 R] [1 2 3 4 R R] << /Kids [7 3 0 R 4 R] >>"
+	add("hostile-refgrammar-objstm.pdf", xrefStreamFile(map[int]string{
+		1: "<< /Type /Catalog /Pages 2 0 R /A 10 0 R /B 11 0 R /C 12 0 R >>",
+		2: "<< /Type /Pages /Count 1 /Kids [ 3 0 R ] >>",
+		3: pageObj, 4: contentObj, 5: fontObj,
+		13: streamObj(fmt.Sprintf("/Type /ObjStm /N 3 /First %d /Filter /FlateDecode", len(refMembers)), deflate([]byte(refBody))),
+	}, map[int][2]int{10: {13, 0}, 11: {13, 1}, 12: {13, 2}}))
+
+	// CCITTFax: 2^20 columns, Group 4, all-white rows (one bit each), with an
+	// explicit /Rows far above what the pixel cap of one image allows
+	for _, c := range []struct {
+		rows, body int
+	}{{4096, 1 << 10}, {65536, 8 << 10}, {65536, 1 << 10}} {
+		img := streamObj(fmt.Sprintf("/Type /XObject /Subtype /Image /Width 1048576 /Height %d /ColorSpace /DeviceGray /BitsPerComponent 1 /Filter /CCITTFaxDecode /DecodeParms << /K -1 /Columns 1048576 /Rows %d >>", c.rows, c.rows),
+			bytes.Repeat([]byte{0xff}, c.body))
+		add(fmt.Sprintf("hostile-ccitt-rows-%d-%dk.pdf", c.rows, c.body>>10), classicFile(map[int]string{
+			1: "<< /Type /Catalog /Pages 2 0 R >>",
+			2: "<< /Type /Pages /Count 1 /Kids [ 3 0 R ] >>",
+			3: "<< /Type /Page /Parent 2 0 R /MediaBox [0 0 200 200] /Contents 4 0 R /Resources << /Font << /F1 5 0 R >> /XObject << /Im1 6 0 R >> >> >>",
+			4: streamObj("", []byte("q 100 0 0 100 50 50 cm /Im1 Do Q")), 5: fontObj,
+			6: img,
+		}, ""))
+	}
+
 	// images: a valid 256x256 JPEG as image XObject, and the same data under
 	// filter chains in which DCTDecode is not the top filter and the filter
 	// above it rejects the decoded samples
